@@ -74,7 +74,8 @@ ASSUMPTIONS = [
     'decided on rays.get_output_field of two unit fields spanning the plane normal to the launch direction '
     '(|E.k| <= 1e-12 |E|)',
     'lenses have no physical apertures and no absorbing media (those losses are C16\'s subject)',
-    'the rotation sense of element angles is read once from JonesLinearRetarder and then required of every family; '
+    'the rotation sense of element angles is read from the named polarizers (P_L45 = R(45 deg) P_H R(-45 deg)) and then '
+    'required of the retarders and the diattenuator; '
     'either handedness convention is accepted for the circular polarizers',
     'as-built models: diattenuator-offdiag-precedence (off-diagonal = t_max - t_min*cos*sin), '
     'tilted-surface-local-frame (surface operators formed from local direction cosines are multiplied without '
@@ -391,16 +392,18 @@ _SENSE = {}
 
 
 def rotation_sense():
-    """+1 if the library's linear retarder at angle t equals R(t) M(0) R(-t), -1 for the opposite sense."""
+    """Sense of element angles, anchored on the library's NAMED linear polarizers (the only elements whose angle is
+    part of their name): +1 if P_L45 == R(+45 deg) P_H R(-45 deg), i.e. angles run from +x towards +y, -1 for the
+    opposite sense, 0 if the named polarizers are not rotations of each other (judged by the polarizer clauses).
+    Retarders and the diattenuator are then required to turn the same way."""
     if 'v' not in _SENSE:
-        from optiland.jones import JonesLinearRetarder
+        from optiland.jones import JonesPolarizerH, JonesPolarizerL45
         r = _rays(1)
-        d, t = 1.0, 0.3
-        M0 = _block(JonesLinearRetarder(d, 0.0).calculate_matrix(r))[0]
-        Mt = _block(JonesLinearRetarder(d, t).calculate_matrix(r))[0]
-        ep = np.max(np.abs(Mt - O.rotated(M0, t, 1)))
-        em = np.max(np.abs(Mt - O.rotated(M0, t, -1)))
-        _SENSE['v'] = -1 if (em < 1e-9 < ep) else 1
+        PH = _block(JonesPolarizerH().calculate_matrix(r))[0]
+        P45 = _block(JonesPolarizerL45().calculate_matrix(r))[0]
+        ep = np.max(np.abs(P45 - O.rotated(PH, math.pi / 4, 1)))
+        em = np.max(np.abs(P45 - O.rotated(PH, math.pi / 4, -1)))
+        _SENSE['v'] = 1 if (ep < 1e-9 < em) else (-1 if (em < 1e-9 < ep) else 0)
     return _SENSE['v']
 
 
@@ -450,7 +453,10 @@ def check_element(case, rec):
 
     # --- retarders
     sense = rotation_sense()
-    rec.cls(f'rotation-sense-{"ccw" if sense > 0 else "cw"}')
+    rec.cls(f'rotation-sense-of-named-polarizers-{"ccw" if sense > 0 else "cw" if sense < 0 else "undetermined"}')
+    if sense == 0:
+        rec.check('rotation-covariance', False, msg='the named polarizers L45 and H are not rotations of each other by 45 deg')
+        sense = 1
     fams = [('linear', lambda t: J.JonesLinearRetarder(d, t), d),
             ('quarter', lambda t: J.JonesQuarterWaveRetarder(t), math.pi / 2),
             ('half', lambda t: J.JonesHalfWaveRetarder(t), math.pi)]
